@@ -145,7 +145,9 @@ def run_case(case, workdir):
             x_start = np.asarray(ev[0]["prior"][0], dtype=np.float64)
             x_want = x[c["idx"]]
             width = np.asarray(scn["target"]["upper"]) - np.asarray(scn["target"]["lower"])
-            atol = (2e-4 if bits == 32 else 1e-7) * width
+            # the bounded forward map clips to [eps, 1-eps] of the unit interval (documented margin, eps=1e-6):
+            # a particle closer than that to a bound legitimately restarts up to eps*width away
+            atol = (2e-4 if bits == 32 else 3e-6) * width
             per = np.array([f == "vm" for f in scn["target"]["factor"]])
             d = np.abs(x_start - x_want)
             if per.any():
